@@ -4,6 +4,7 @@ import itertools, json, os
 from vp import val, coqrun, rustrun
 from vp.val import cN, cbool, clist, cpair
 from gen.common import *
+from gen import bgpenc as E
 
 IPV4_LU = (1 << 16) | 4
 FAMS = [IPV4, IPV6, IPV4_VPN, IPV4_LU]
@@ -132,6 +133,7 @@ class Prop:
     def case_to_val(self, c):
         k = c['kind']
         if k == 'acc': return acc_to_val(c)
+        if k == 'open': return [c['lid'], caps_to_val(c['l']), c['lhold'], c['exp'], list(c['frame']), list(c['fams'])]
         if k == 'net': return [0, net_to_val(c['net']), addr_to_val(c['addr'])]
         if k == 'neg': return [1, caps_to_val(c['l']), caps_to_val(c['r']), list(c['fams'])]
         return [caps_to_val(c['l']), caps_to_val(c['r']), [list(p) for p in c['smax']], list(c['fams'])]
@@ -139,6 +141,9 @@ class Prop:
     def case_to_coq(self, c, order=None):
         k = c['kind']
         if k == 'acc': return acc_to_coq(c, order if order is not None else list(range(len(c['groups']))))
+        if k == 'open':
+            return 'run_open_case %s %s %s %s %s %s' % (cN(c['lid']), caps_to_coq(c['l']), cN(c['lhold']), cN(c['exp']),
+                                                       val.cbytes(c['frame']), clist([cN(f) for f in c['fams']]))
         if k == 'net': return 'v_net_case %s %s' % (net_to_coq(c['net']), addr_to_coq(c['addr']))
         fams = clist([cN(f) for f in c['fams']])
         if k == 'neg': return 'run_neg_case %s %s %s' % (caps_to_coq(c['l']), caps_to_coq(c['r']), fams)
@@ -152,6 +157,9 @@ class Prop:
         c = dict(j)
         if c['kind'] == 'acc':
             return json.loads(json.dumps(j))
+        if c['kind'] == 'open':
+            c['l'] = [tupcap(x) for x in j['l']]
+            return c
         if c['kind'] == 'net':
             c['net'] = (j['net'][0], list(j['net'][1]), j['net'][2]); c['addr'] = (j['addr'][0], list(j['addr'][1]))
         else:
@@ -272,10 +280,230 @@ class Prop:
         return dict(kind='acc', asn=65000, rid=0x01000001, confed=confed, restarting=rng.random() < 0.15,
                     groups=groups, statics=statics, ops=[list(o) for o in ops])
 
+    # ---- enumerated classes (every run)
+    def enum_neg(self):
+        """capability x {absent, present, duplicate} on either side; every add-path mode pair; orderings; GR / LLGR"""
+        out = []
+        F = IPV4
+        def both(cls, l, r, smax=((IPV4, 8),)):
+            out.append(dict(kind='neg', l=list(l), r=list(r), fams=sorted(FAMS), cls=cls))
+            out.append(dict(kind='sess', l=list(l), r=list(r), smax=[list(x) for x in smax], fams=sorted(FAMS), cls=cls))
+        kinds = {
+            'mp_v6': ('mp', IPV6), 'mp_vpn': ('mp', IPV4_VPN), 'mp_lu': ('mp', IPV4_LU), 'extmsg': ('extmsg',),
+            'as4_2octet': ('as4', 65000), 'as4_4octet': ('as4', 70000), 'as4_trans': ('as4', 23456),
+            'enh': ('enh', [(IPV4, 2)]), 'enh_wrong_afi': ('enh', [(IPV4, 1)]), 'enh_v6_family': ('enh', [(IPV6, 2)]),
+            'rr': ('rr',), 'err': ('err',), 'unknown': ('unknown', 99, [1, 2]), 'fqdn': ('fqdn', [104], [100]),
+            'gr': ('gr', 4, 90, [(F, 128)]), 'llgr': ('llgr', [(F, 128, 60)]), 'addpath': ('addpath', [(F, 3)]),
+        }
+        variants = {'absent': lambda c: [], 'present': lambda c: [c], 'duplicate': lambda c: [c, c]}
+        base = [('mp', F)]
+        for name, cap in kinds.items():
+            for ln, lv in variants.items():
+                for rn, rv in variants.items():
+                    both('cap_%s_%s_%s' % (name, ln, rn), base + lv(cap), base + rv(cap))
+        # the family itself: absent / present / duplicate on either side, with add-path entries present regardless
+        for ln, lv in variants.items():
+            for rn, rv in variants.items():
+                both('cap_mp_v4_%s_%s' % (ln, rn), lv(('mp', F)) + [('addpath', [(F, 3)])], rv(('mp', F)) + [('addpath', [(F, 3)])])
+        # every pair of add-path modes (0-3 and the invalid 4, 7), send-max 1 and 8
+        for lm in (0, 1, 2, 3, 4, 7):
+            for rm in (0, 1, 2, 3, 4, 7):
+                for sm in (1, 8):
+                    both('addpath_mode_%d_%d' % (lm, rm), base + [('addpath', [(F, lm)])], base + [('addpath', [(F, rm)])], smax=((F, sm),))
+        # several entries for one family: in one capability, in two, in either order (the last one counts)
+        for a in (0, 1, 2, 3):
+            for b in (0, 1, 2, 3):
+                both('addpath_two_entries', base + [('addpath', [(F, a), (F, b)])], base + [('addpath', [(F, 3)])])
+                both('addpath_two_caps', base + [('addpath', [(F, a)]), ('addpath', [(F, b)])], base + [('addpath', [(F, 3)])])
+                both('addpath_two_caps_remote', base + [('addpath', [(F, 3)])], [('addpath', [(F, a)]), ('mp', F), ('addpath', [(F, b)])])
+        # orderings inside the OPEN: ADD-PATH before MultiProtocol etc.
+        four = [('mp', F), ('addpath', [(F, 3)]), ('as4', 65000), ('extmsg',)]
+        fixed = list(four)
+        for perm in itertools.permutations(four):
+            both('order_local', perm, fixed)
+            both('order_remote', fixed, perm)
+        # graceful restart: flags, family lists, several capabilities (the first counts)
+        grl = [[], [(F, 0)], [(F, 128), (IPV6, 0)], [(IPV6, 0)], [(F, 0), (F, 128)]]
+        for lf in grl:
+            for rf in grl:
+                for lfl, rfl in ((0, 0), (4, 4), (4, 0), (12, 4), (8, 12)):
+                    both('gr_matrix', base + [('mp', IPV6), ('gr', lfl, 120, lf)], base + [('mp', IPV6), ('gr', rfl, 90, rf)])
+        both('gr_two_caps', base + [('gr', 0, 120, [(IPV6, 0)]), ('gr', 0, 120, [(F, 0)])], base + [('gr', 0, 90, [(F, 0)])])
+        both('gr_two_caps', base + [('gr', 0, 120, [(F, 0)])], base + [('gr', 0, 90, [(IPV6, 0)]), ('gr', 0, 90, [(F, 0)])])
+        both('gr_time_bounds', base + [('gr', 0, 0, [(F, 0)])], base + [('gr', 0, 4095, [(F, 0)])])
+        # LLGR: stale times 0 / 1 / 60 / 2^24-1 on either side, repeated families, several capabilities
+        times = (0, 1, 60, 16777215)
+        for lt in times:
+            for rt in times:
+                both('llgr_times', base + [('llgr', [(F, 0, lt)])], base + [('llgr', [(F, 128, rt)])])
+        for a in (0, 60):
+            for b in (0, 60):
+                both('llgr_repeated_family', base + [('llgr', [(F, 0, a), (F, 0, b)])], base + [('llgr', [(F, 0, 0)])])
+                both('llgr_repeated_family', base + [('llgr', [(F, 0, 0)])], base + [('llgr', [(F, 0, a), (F, 0, b)])])
+                both('llgr_two_caps', base + [('llgr', [(F, 0, a)]), ('llgr', [(F, 0, b)])], base + [('llgr', [(F, 0, 0), (IPV6, 0, 60)])])
+        return out
+
+    def enum_acc(self):
+        out = []
+        com = dict(rr=[False, None], multihop=None, ttlsec=None, families=[], send_max=[], gr=None, llgr=None)
+        def P(**kw):
+            p = dict(com); p.update(expected=65001, local_asn=0, passive=True, rs=False, delete=False, admin_down=False, hold=180, prefix_limits=[])
+            p.update(kw); return p
+        def G(**kw):
+            g = dict(com); g.update({'as': 65001, 'local_asn': 0, 'prefixes': [], 'rs': False, 'hold': None, 'passive': True})
+            g.update(kw); return g
+        def case(cls, groups, statics, ops, confed=None, restarting=False):
+            out.append(json.loads(json.dumps(dict(kind='acc', asn=65000, rid=0x01000001, confed=confed, restarting=restarting,
+                                                  groups=groups, statics=statics, ops=[list(o) for o in ops], cls=cls))))
+        a1, a2 = self.ADDRS[0], self.ADDRS[2]
+        # admin-down x direction x existing connection (configured neighbour), and the same for a dynamic one
+        for down in (False, True):
+            for role in (0, 1):
+                for pre in ([], [('connect', a1, role)], [('connect', a1, 1 - role)], [('connect', a1, 0), ('connect', a1, 1)]):
+                    case('admin_x_role', [], [dict(addr=a1, params=P(admin_down=down), group=None)], pre + [('connect', a1, role), ('connect', a1, 1 - role)])
+                    case('admin_x_role_toggle', [], [dict(addr=a1, params=P(), group=None)],
+                         pre + [('admin', a1, down), ('connect', a1, role), ('admin', a1, not down), ('connect', a1, role)])
+                    case('admin_x_role_dynamic', [G(prefixes=[(4, [127, 0, 0, 0], 8)])], [], pre + [('admin', a1, down), ('connect', a1, role), ('connect', a1, 1 - role)])
+                    case('disable_enable', [G(prefixes=[(4, [127, 0, 0, 0], 8)])], [dict(addr=a2, params=P(), group=None)],
+                         pre + [('connect', a2, role), ('disable', a2 if down else a1, 0), ('connect', a2, role), ('connect', a1, role),
+                                ('enable', a2, 0), ('connect', a2, role)])
+        # every prefix against every address, both directions
+        for n in self.NETS:
+            for a in self.ADDRS:
+                for role in (0, 1):
+                    case('prefix_x_address', [G(prefixes=[n])], [], [('connect', a, role), ('disconnect', a, role), ('connect', a, role)])
+        # role derivation: peer AS x local AS x route-server x route-reflector x confederation
+        for expected in (0, 65000, 65001, 65009, 64999):
+            for la in (0, 65000, 64999):
+                for rs in (False, True):
+                    for rr in ([False, None], [True, None], [True, 0x0a000001], [False, 0x0a000001]):
+                        for confed in (None, [65100, [65001, 65002]], [65100, [65000, 65001]]):
+                            case('role_matrix', [], [dict(addr=a1, params=P(expected=expected, local_asn=la, rs=rs, rr=rr), group=None)],
+                                 [('connect', a1, 1)], confed=confed)
+                            case('role_matrix_dynamic', [G(**{'as': expected, 'local_asn': la, 'rs': rs, 'rr': rr, 'prefixes': [(4, [127, 0, 0, 0], 8)]})],
+                                 [], [('connect', a1, 1)], confed=confed)
+        # TTL: multihop x GTSM x internal / external
+        for mh in (None, 5, 255):
+            for ts in (None, 1, 10):
+                for expected in (65000, 65001):
+                    case('ttl_matrix', [], [dict(addr=a1, params=P(expected=expected, multihop=mh, ttlsec=ts), group=None)], [('connect', a1, 1)])
+                    case('ttl_matrix_dynamic', [G(**{'as': expected, 'multihop': mh, 'ttlsec': ts, 'prefixes': [(4, [127, 0, 0, 0], 8)]})], [], [('connect', a1, 0)])
+        # peer-group inheritance, field by field: the neighbour sets it or not, the group sets it or not
+        fam1, fam2 = [[IPV4, 3]], [[IPV6, 1], [IPV4_VPN, 0]]
+        fields = [('expected', 'as', 0, 65001, 65009), ('local_asn', 'local_asn', 0, 64999, 64998), ('hold', 'hold', 180, 30, 90),
+                  ('multihop', 'multihop', None, 5, 7), ('ttlsec', 'ttlsec', None, 1, 10), ('families', 'families', [], fam1, fam2),
+                  ('gr', 'gr', None, [120, True, [IPV4]], [90, False, [IPV6]]), ('llgr', 'llgr', None, [[IPV4, 60]], [[IPV6, 1]]),
+                  ('passive', 'passive', False, True, True), ('rs', 'rs', False, True, True),
+                  ('rr', 'rr', [False, None], [True, 0x0a000001], [True, None])]
+        for pf, gf, unset, v1, v2 in fields:
+            for pv in (unset, v1):
+                for gv in ((None if gf == 'hold' else unset), v2):
+                    p = P(**{pf: pv}); g = G(**{gf: gv})
+                    if pf == 'families':
+                        p['send_max'] = [[IPV4, 4]] if pv else []; g['send_max'] = [[IPV6, 2]] if gv else []
+                    case('inherit_%s' % pf, [g], [dict(addr=a1, params=p, group=0)], [('connect', a1, 1)])
+        # hold times a group / neighbour can carry, including the ones that cannot be advertised
+        for h in (0, 1, 2, 3, 180, 65535, 65536):
+            case('hold_values', [G(hold=h, prefixes=[(4, [127, 0, 0, 0], 8)])], [dict(addr=a2, params=P(hold=h), group=None)],
+                 [('connect', a1, 1), ('connect', a2, 1)])
+        # a dynamic neighbour's life: both directions, last connection, disable, delete, delete + reconnect
+        g = [G(prefixes=[(4, [127, 0, 0, 0], 16)])]
+        case('dynamic_lifecycle', g, [], [('connect', a1, 0), ('connect', a1, 1), ('disconnect', a1, 0), ('connect', a1, 1), ('disconnect', a1, 1), ('connect', a1, 1)])
+        case('dynamic_lifecycle', g, [], [('connect', a1, 1), ('disable', a1, 0), ('connect', a1, 1), ('connect', a1, 0)])
+        case('dynamic_lifecycle', g, [], [('connect', a1, 1), ('admin', a1, True), ('connect', a1, 0), ('disconnect', a1, 1), ('connect', a1, 1)])
+        case('dynamic_lifecycle', g, [], [('connect', a1, 1), ('delete', a1, 0), ('connect', a1, 1)])
+        case('dynamic_lifecycle', g, [dict(addr=a1, params=P(), group=None)], [('connect', a1, 1), ('delrace', a1, 1), ('disconnect', a1, 1)])
+        case('dynamic_lifecycle', g, [dict(addr=a1, params=P(), group=None)], [('connect', a1, 0), ('connect', a1, 1), ('delrace', a1, 0), ('connect', a1, 0)])
+        # overlapping dynamic prefixes in two / three groups
+        for hs in ((30, 90), (90, 30), (30, 90, 3)):
+            case('overlapping_groups', [G(hold=h, prefixes=[(4, [127, 0, 0, 0], 8 + 4 * k)]) for k, h in enumerate(hs)], [], [('connect', a1, 1)])
+        # configured twice; restarting speaker
+        case('configured_twice', [], [dict(addr=a1, params=P(hold=30), group=None), dict(addr=a1, params=P(hold=90), group=None)], [('connect', a1, 1)])
+        case('restarting', g, [dict(addr=a2, params=P(gr=[120, True, [IPV4]]), group=None)], [('connect', a1, 1), ('connect', a2, 1)], restarting=True)
+        return out
+
+    def enum_open(self):
+        """OPEN messages as octets: capability order and packaging, lengths off by one, unknown codes, AS forms
+        (2-octet, AS_TRANS + 4-octet capability), hold times 0/1/2/3/65535, identifiers, against expected AS and local hold"""
+        out = []
+        F = IPV4
+        LID = 0x01000001
+        lcap = [('mp', F), ('mp', IPV6), ('addpath', [(F, 3)]), ('as4', 65000), ('extmsg',), ('gr', 4, 120, [(F, 0)]), ('llgr', [(F, 0, 60)])]
+        def add(cls, frame, exp=0, lhold=90, l=lcap, peer_as=None):
+            fr = frame.d if hasattr(frame, 'd') else list(frame)
+            out.append(dict(kind='open', lid=LID, l=list(l), lhold=lhold, exp=exp, frame=fr, fams=sorted(FAMS), cls=cls, peer_as=peer_as))
+        caps = {'mp': E.cap_mp(F), 'mp6': E.cap_mp(IPV6), 'addpath': E.cap_addpath([(F, 3)]), 'as4': E.cap_as4(65001), 'extmsg': E.cap_extmsg(),
+                'gr': E.cap_gr(4, 90, [(F, 128)]), 'llgr': E.cap_llgr([(F, 0, 30)]), 'rr': E.cap_rr(), 'err': E.cap_err(),
+                'enh': E.cap_extnh([(F, 2)]), 'fqdn': E.cap_fqdn([104, 111], [100])}
+        def msg(cl, asn=65001, hold=30, rid=100, one_param=True):
+            params = [E.opt_param(2, E.cat(cl))] if one_param else [E.opt_param(2, c) for c in cl]
+            return E.open_msg(asn, hold, rid, params if cl else [])
+        # order and packaging of the capabilities (ADD-PATH before MultiProtocol, one optional parameter or one each)
+        four = ['mp', 'addpath', 'as4', 'extmsg']
+        for perm in itertools.permutations(four):
+            for one in (True, False):
+                add('wire_order', msg([caps[x] for x in perm], one_param=one))
+        # each capability: absent, once, twice; and with its length octet off by one either way, zero, or beyond the parameter
+        for name, cb in caps.items():
+            rest = [caps[x] for x in four if x != name]
+            add('wire_cap_%s_absent' % name, msg(rest))
+            add('wire_cap_%s_once' % name, msg(rest + [cb]))
+            add('wire_cap_%s_twice' % name, msg([cb] + rest + [cb]))
+            for delta in (-1, 1, None, 200):
+                bad = list(cb.d)
+                bad[1] = 0 if delta is None else (bad[1] + delta) & 0xff
+                add('wire_cap_%s_badlen' % name, msg(rest + [E.B(bad)]))
+                add('wire_cap_%s_badlen' % name, msg([E.B(bad)] + rest))
+        # capability codes the implementation does not know, with lengths 0 / 1 / 255
+        for code in (0, 3, 4, 7, 63, 66, 67, 68, 72, 74, 128, 255):
+            for ln in (0, 1, 255):
+                add('wire_unknown_cap', msg([caps['mp'], E.B([code, ln] + [1] * min(ln, 3)), caps['as4']]))
+                add('wire_unknown_cap', msg([caps['mp'], E.cap(code, [7] * min(ln, 40)), caps['as4']]))
+        # add-path modes on the wire 0..4, 255; entries for families without MultiProtocol; several entries
+        for m in (0, 1, 2, 3, 4, 255):
+            add('wire_addpath_mode', msg([caps['mp'], E.cap_addpath([(F, m)]), caps['as4']]))
+            add('wire_addpath_mode', msg([E.cap_addpath([(F, m), (F, 3)]), caps['mp']]))
+            add('wire_addpath_mode', msg([E.cap_addpath([(F, 3), (F, m)]), caps['mp']]))
+            add('wire_addpath_mode', msg([E.cap_addpath([(IPV6, m)]), caps['mp']]))
+        # optional parameter types other than 2, lengths against the message
+        for ty in (0, 1, 3, 255):
+            add('wire_param_type', E.open_msg(65001, 30, 100, [E.opt_param(ty, [1, 2, 3])]))
+        add('wire_param_len', E.open_msg(65001, 30, 100, [E.B([2, 10, 1, 4, 0, 1, 0, 1])]))
+        add('wire_param_len', E.open_msg(65001, 30, 100, [E.B([2])]))
+        # AS number forms against the expected AS: 2-octet, AS_TRANS with and without the capability, 4-octet, mismatch
+        for asn, as4 in ((65001, None), (65001, 65001), (23456, 65001), (23456, 70000), (23456, None), (65001, 70000), (23456, 23456), (0, None), (65535, 65535)):
+            for exp in (0, 65001, 70000, 23456):
+                cl = [caps['mp']] + ([E.cap_as4(as4)] if as4 is not None else [])
+                # the AS the peer is in: the 4-octet capability when My-AS is AS_TRANS (RFC 6793), else the My-AS field;
+                # left open when the two contradict each other
+                # (AS_TRANS without the capability is not a legitimate AS either: the code records AS 0 there)
+                peer_as = as4 if (asn == 23456 and as4 is not None) else (asn if as4 in (None, asn) and asn != 23456 else None)
+                add('wire_as_forms', msg(cl, asn=asn), exp=exp, peer_as=peer_as)
+        # hold times on either side
+        for hold in (0, 1, 2, 3, 4, 65535):
+            for lhold in (0, 1, 2, 3, 90, 65535, 65536):
+                add('wire_hold', msg([caps['mp']], hold=hold), lhold=lhold)
+        # identifiers: unspecified, broadcast, multicast, the local identifier, ordinary
+        for rid in (0, 0xffffffff, 0xe0000001, 0xefffffff, 0xdfffffff, 0xf0000000, LID, 1, 100):
+            add('wire_router_id', msg([caps['mp']], rid=rid))
+        # version, truncation
+        add('wire_version', E.open_msg(65001, 30, 100, [], version=3))
+        full = msg([caps['mp'], caps['as4']]).d
+        for cut in (1, 2, 10):
+            fr = list(full[:-cut]); fr[16:18] = [len(fr) >> 8, len(fr) & 0xff]
+            add('wire_truncated', fr)
+        # GR flag and time bits, LLGR time width
+        for fl in (0, 4, 8, 12, 15):
+            for tm in (0, 1, 4095):
+                add('wire_gr_bits', msg([caps['mp'], E.cap_gr(fl, tm, [(F, 128), (IPV6, 0)])]))
+        for tm in (0, 1, 0xffffff):
+            add('wire_llgr_time', msg([caps['mp'], E.cap_llgr([(F, 128, tm)])]))
+        return out
+
     def gen_cases(self, rng, tier):
-        cases = []
-        for _ in range(400 if tier == 'quick' else 4000):
-            cases.append(json.loads(json.dumps(self.gen_acc(rng))))
+        cases = self.enum_neg() + self.enum_acc() + self.enum_open()
+        for _ in range(300 if tier == 'quick' else 4000):
+            c = json.loads(json.dumps(self.gen_acc(rng))); c['cls'] = 'random'; cases.append(c)
         reps = 2 if tier == 'quick' else 12
         for _ in range(reps):
             for mask in list(range(0, 33)) + [33, 40, 255]:
@@ -284,14 +512,14 @@ class Prop:
             for mask in list(range(0, 129)) + [129, 135, 255]:
                 for canonical in (True, False):
                     cases.append(self.gen_net(rng, 6, mask, canonical))
-        n = 1200 if tier == 'quick' else 12000
+        n = 800 if tier == 'quick' else 12000
         for k in range(n):
             l, r = self.gen_caps(rng), self.gen_caps(rng)
             if k % 2 == 0:
-                cases.append(dict(kind='neg', l=l, r=r, fams=sorted(FAMS)))
+                cases.append(dict(kind='neg', l=l, r=r, fams=sorted(FAMS), cls='random'))
             else:
                 smax = [(f, rng.choice([1, 2, 8])) for f in FAMS if rng.random() < 0.6]
-                cases.append(dict(kind='sess', l=l, r=r, smax=smax, fams=sorted(FAMS)))
+                cases.append(dict(kind='sess', l=l, r=r, smax=smax, fams=sorted(FAMS), cls='random'))
         return cases
 
     # ---- running
@@ -307,6 +535,11 @@ class Prop:
             res, err = rustrun.daemon_test('C16d', 'event::verif_hx::verif_neg_cases', [self.case_to_val(c) for _, c in b])
             if res is None: return None, err
             for (k, _), o in zip(b, res): out[k] = o
+        w = [(k, c) for k, c in enumerate(cases) if c['kind'] == 'open']
+        if w:
+            res, err = rustrun.daemon_test('C16o', 'event::verif_hx::open_hx::verif_open_cases', [self.case_to_val(c) for _, c in w])
+            if res is None: return None, err
+            for (k, _), o in zip(w, res): out[k] = o
         d = [(k, c) for k, c in enumerate(cases) if c['kind'] == 'acc']
         self._orders = {}
         if d:
@@ -321,7 +554,7 @@ class Prop:
         return out, ''
 
     def run_model(self, cases, tier):
-        pre = 'From RB Require Import Base.Val Model.Caps Model.Fsm Model.Negotiate Model.Accept.\nOpen Scope N_scope.'
+        pre = 'From RB Require Import Base.Val Model.Caps Model.Fsm Model.Negotiate Model.Accept Model.OpenSession.\nOpen Scope N_scope.'
         orders = getattr(self, '_orders', {})
         return coqrun.eval_terms('C16', pre, [self.case_to_coq(c, orders.get(k)) if c['kind'] == 'acc' else self.case_to_coq(c)
                                               for k, c in enumerate(cases)])
@@ -343,6 +576,8 @@ class Prop:
         k = c['kind']
         if k == 'acc':
             return self.oracle_acc(c, obs)
+        if k == 'open':
+            return self.oracle_open(c, obs)
         if obs == [-1] and k != 'net':
             return 'panic'
         if k == 'net':
@@ -593,7 +828,49 @@ class Prop:
             rows = after
         return None
 
+    def oracle_open(self, c, obs):
+        if obs == [-1]: return 'panic while handling an OPEN'
+        if obs[0] != 1:
+            return None          # rejected by the codec: the decoder's verdict is property C03's
+        _, asn, hold, rid, rcaps, state, outs, neg, grs = obs
+        # expected AS: the session goes on only with the configured AS (0 = any), else Bad Peer AS
+        if c.get('peer_as') is not None and asn != c['peer_as']:
+            return 'the peer is in AS %d (My-AS field / 4-octet AS capability), the session records AS %d' % (c['peer_as'], asn)
+        ok_as = c['exp'] == 0 or c['exp'] == asn
+        downs = [o for o in outs if o[2][0] == 5]
+        if ok_as and (state != 4 or downs): return 'OPEN from the expected AS %d did not lead to OpenConfirm' % asn
+        if not ok_as and (state != 0 or not downs or downs[0][2][1] != [2, 2, 2]):
+            return 'OPEN from AS %d accepted although AS %d is configured' % (asn, c['exp'])
+        if ok_as:
+            lh = c['lhold'] % 65536
+            adv = 0 if lh in (1, 2) else lh
+            h = min(adv, hold)
+            kas = [o[2][1] for o in outs if o[2][0] == 1]; hs = [o[2][1] for o in outs if o[2][0] == 2]
+            if h > 0 and (kas != [h // 3] or hs != [h]):
+                return 'hold time %d in force, timers asked for: keepalive %s hold %s' % (h, kas, hs)
+            if h == 0 and (any(kas) or any(hs)):
+                return 'hold time 0 in force but a timer is started: keepalive %s hold %s' % (kas, hs)
+        # the two ends: mirror image, in force iff both advertised
+        fl, xl, tl, fr, xr, tr = neg
+        rc = [tuple(x) for x in rcaps]
+        def has(caps, code): return any(x[0] == code for x in caps)
+        lv = caps_to_val(c['l'])
+        for (f, p, rx, tx), (f2, p2, rx2, tx2) in zip(fl, fr):
+            if p != p2 or (p and (rx != tx2 or tx != rx2)): return 'family %d: not mirror images' % f
+            both = [1, f] in lv and [1, f] in rcaps
+            if bool(p) != both: return 'family %d in force %d, advertised by both %d' % (f, p, both)
+        if xl != xr or tl != tr: return 'extended message / AS width differ between the two ends'
+        if bool(xl) != (has(lv, 6) and has(rcaps, 6)): return 'extended message in force but not advertised by both'
+        if bool(tl) == (has(lv, 65) and has(rcaps, 65)): return '4-octet AS in force but not advertised by both'
+        gl, ll, gr_, lr = grs
+        if set(gl[0] if gl else []) != set(gr_[0] if gr_ else []): return 'graceful restart families differ between the two ends'
+        sl = set(f for f, _ in ll[0]) if ll else set(); sr = set(f for f, _ in lr[0]) if lr else set()
+        if sl != sr: return 'LLGR families differ between the two ends'
+        return None
+
     def nontrivial_key(self, c, obs):
+        if c['kind'] == 'open':
+            return json.dumps(c['frame']) if obs != [-1] and obs[0] == 1 else None
         if c['kind'] == 'acc':
             if obs != [-1] and any(o[0] for o in obs[2:]): return json.dumps(acc_to_val(c))
             return None
@@ -609,7 +886,7 @@ class Prop:
         return None
 
     def classify(self, c, obs):
-        tags = [c['kind']]
+        tags = [c['kind'], 'class_%s' % (c.get('cls') or ('mask_%d' % c['net'][2] if c['kind'] == 'net' else 'corpus'))]
         if c['kind'] == 'acc' and obs != [-1]:
             if any(o[0] for o in obs[2:]): tags.append('accepted')
         if c['kind'] == 'net':
